@@ -154,10 +154,13 @@ def parseOp (w : Nat) (toks : List String) : Op :=
   match toks with
   | ["width", n] => orBad (n.toNat?.map Op.width)
   | ["init", h] => orBad ((parseHexBytes h).map Op.init)
+  | ["ainit", h] => orBad ((parseHexBytes h).map Op.init)
   | ["root"] => .root
+  | ["aroot"] => .root
   | ["prop", s, q] => orBad (do let s ← parseScope s; let q ← parseHexBytes q; pure (Op.prop s q))
   | ["aprop", s, q] => orBad (do let s ← parseScope s; let q ← parseHexBytes q; pure (Op.prop s q))
   | ["iprop", s, i] => orBad (do let s ← parseScope s; let i ← i.toNat?; pure (Op.iprop s i))
+  | ["aiprop", s, i] => orBad (do let s ← parseScope s; let i ← i.toNat?; pure (Op.iprop s i))
   | ["idx", s, i] => orBad (do let s ← parseScope s; let i ← i.toNat?; pure (Op.idx s i))
   | ["key", s, i] => orBad (do let s ← parseScope s; let i ← i.toNat?; pure (Op.key s i))
   | ["len", s] => orBad ((parseScope s).map Op.len)
@@ -176,6 +179,7 @@ def parseOp (w : Nat) (toks : List String) : Op :=
   | ["logcopy", l, s] => orBad (do let l ← l.toNat?; let s ← s.toNat?; pure (Op.logcopy l s))
   | ["logs?"] => .logsq
   | ["intern", h] => orBad ((parseHexBytes h).map Op.intern)
+  | ["vintern", h] => orBad ((parseHexBytes h).map Op.intern)
   | ["internreq", n] => orBad (n.toNat?.map Op.internreq)
   | ["interncopy", h] => orBad ((parseHexBytes h).map Op.interncopy)
   | ["cached", h] => orBad ((parseHexBytes h).map Op.cached)
